@@ -10,6 +10,7 @@ that maintenance edits of that kind cannot change a verdict:
   N3  negations are pushed inwards: `not (a or b)` -> `not a and not b`, `not (a and b)` -> `not a or not b`, `not not a` -> `a`,
       `not a == b` -> `a != b`, `not a is None` -> `a is not None`, `not a in b` -> `a not in b` (not applied to `<`/`<=`: NaN, None);
   N4  a statement whose value is a conditional expression becomes an if-statement:  `x = a if c else b`, `x += ...`, `return ...`;
+  N10 `for i, X in enumerate(IT)` with `i` never read -> `for X in IT`;
   N9  `x = []` + `for T in IT: [if C:] x.append(E)`  ->  `x = [E for T in IT if C]` (same for set()/add);
   N8  `a, b = x, y` becomes `a = x; b = y` when no target occurs in a later value (applied after N6);
   N5  (see alpha.py) locals are renamed to the spelling of the reference snapshot when their use-signature identifies them;
@@ -182,6 +183,35 @@ def loops_to_comprehensions(tree):
     return n[0]
 
 
+def drop_unused_enumerate(tree):
+    """N10: `for i, X in enumerate(IT): ...` with `i` never read in the function -> `for X in IT: ...` (also in comprehensions)"""
+    n = [0]
+    for f in ast.walk(tree):
+        if not isinstance(f, (ast.FunctionDef, ast.AsyncFunctionDef)):
+            continue
+        loads = {}
+        for x in ast.walk(f):
+            if isinstance(x, ast.Name) and isinstance(x.ctx, ast.Load):
+                loads[x.id] = loads.get(x.id, 0) + 1
+        uses_locals = any(isinstance(x, ast.Call) and isinstance(x.func, ast.Name) and x.func.id in ('locals', 'vars', 'eval', 'exec') for x in ast.walk(f))
+        if uses_locals:
+            continue
+        for x in ast.walk(f):
+            holders = []
+            if isinstance(x, (ast.For, ast.AsyncFor)):
+                holders.append(x)
+            elif isinstance(x, (ast.ListComp, ast.SetComp, ast.DictComp, ast.GeneratorExp)):
+                holders.extend(x.generators)
+            for h in holders:
+                it, tg = h.iter, h.target
+                if isinstance(it, ast.Call) and isinstance(it.func, ast.Name) and it.func.id == 'enumerate' and len(it.args) == 1 and not it.keywords \
+                        and isinstance(tg, ast.Tuple) and len(tg.elts) == 2 and isinstance(tg.elts[0], ast.Name) and loads.get(tg.elts[0].id, 0) == 0:
+                    h.iter = it.args[0]
+                    h.target = tg.elts[1]
+                    n[0] += 1
+    return n[0]
+
+
 def split_tuple_assignments(tree):
     """N8: `a, b = x, y` -> `a = x; b = y` when no target name occurs in a later value (the two forms are then equivalent)"""
     n = [0]
@@ -232,4 +262,5 @@ def normalize(tree):
     tree = n.visit(tree)
     ast.fix_missing_locations(tree)
     n.counts['loop_to_comprehension'] = loops_to_comprehensions(tree)
+    n.counts['enumerate_dropped'] = drop_unused_enumerate(tree)
     return tree, n.counts
